@@ -16,13 +16,13 @@ COMMON_MIR = [
 
 PROPS = {
     "C03": {
-        "mirsym": ["teardown", "teardown_wrappers"],
+        "mirsym": ["counter_verify", "fn_mocker_verify", "teardown", "teardown_wrappers", "assembler"],
         "bounds": {"quick": "CallCounter::verify: all 2^64 x 2^64 x 3 (minimum, actual, exactness); FnMocker::verify: 2 patterns, arbitrary counters; teardown: method table iteration unrolled to <=3"},
         "assumptions": COMMON_KANI + COMMON_MIR,
         "outside": ["rendered message text", "minimum+1 overflow for n_times(usize::MAX).then()"],
     },
     "C01": {
-        "mirsym": ["eval_dyn"],
+        "mirsym": ["eval_dyn", "assembler", "construction"],
         "bounds": {"quick": "scan: K=3 patterns, all 27 verdict tables {reject,accept,error}^3, arbitrary 64-bit prior counts and ordered index; one step (state = counters, arbitrary => histories of any length); matcher downcast: all u8 x u8",
                    "thorough": "adds K=4 and the eval_dyn step with a 1-entry method table"},
         "assumptions": COMMON_KANI + ["predicates are modelled as an arbitrary verdict per pattern (the link matcher closure = predicate is C06)",
@@ -35,8 +35,9 @@ PROPS = {
         "outside": ["sum of repeat counts >= 2^63", "more than 4 segments"],
     },
     "C04": {
+        "mirsym": ["assembler"],
         "bounds": {"quick": "owner lookup and one ordered step: 3 patterns of the called method with arbitrary increasing disjoint 64-bit slot ranges (empty ranges allowed), arbitrary global index, arbitrary prior counts"},
-        "assumptions": COMMON_KANI + ["std::thread::current()/panicking() replaced by the overlay's std_shim (Kani cannot compile thread::current())"],
+        "assumptions": COMMON_MIR + COMMON_KANI + ["std::thread::current()/panicking() replaced by the overlay's std_shim (Kani cannot compile thread::current())"],
         "outside": ["more than 3 ordered patterns per method in one step harness"],
     },
     "C09": {
@@ -63,5 +64,17 @@ PROPS = {
         "bounds": {"quick": "the complete decision table of eval_dyn: method table M=0..2 entries with symbolic keys and symbolic called type id x has_default_impl x partial_by_default x fallback mode x scan result {none, pattern 0, pattern 1, error} x responder available; one call from an arbitrary state"},
         "assumptions": COMMON_MIR + ["match_call_pattern / next_responder are replaced by their contracts, which the Kani units c01_scan_first_match, c04_in_order_step, c02_next_responder_step decide on the compiled code"],
         "outside": ["the generated match arms that act on Unmock / CallDefaultImpl (C15/C16)", "argument values (the scan result is symbolic instead)"],
+    },
+    "C14": {
+        "mirsym": ["assembler", "tuples", "construction"],
+        "bounds": {"quick": "tuple impls of every arity 2..16 (element results symbolic); every sequence of <=3 pushes (thorough 4) with symbolic method/mode/exactness/count/responder_error; Each::deconstruct with 0..2 patterns; from_assembler for Ok/Err"},
+        "assumptions": COMMON_MIR + ["the element clauses of a tuple are environment calls returning an arbitrary Result (nesting follows by structural induction)"],
+        "outside": ["the two compile-time rejections (type checker): ordered patterns only with exact counts, then() only after an exact count"],
+    },
+    "C18": {
+        "mirsym": ["assembler", "drop_flags", "eval_dyn", "statics", "induce_panic", "construction"],
+        "bounds": {"quick": "every sequence of <=3 pushes (thorough 4) over 2 (thorough 3) methods; adjacent-swap lemma at every position; Clone::clone data flow; eval_dyn table lookup with symbolic keys"},
+        "assumptions": COMMON_MIR + ["BTreeMap modelled as a finite map; iteration order abstracted (no decision in the crate depends on it except the wording of an error message)"],
+        "outside": ["generic instantiation distinctness is a property of TypeId (trusted)", "message text"],
     },
 }
